@@ -56,11 +56,11 @@ Qed.
 Print Assumptions wif_decode_unambiguous.
 
 (* with F4 repaired in /repo nothing but ValueError / Base58ChecksumError escapes the decoder *)
-Theorem wif_decode_errors : forall sha256 s v e, sha_law sha256 ->
-  B58 wif_decode sha256 s [v] = Err e -> e = ValueError \/ e = LibError Base58ChecksumError.
+Theorem wif_decode_errors : forall sha256 s nv e, sha_law sha256 ->
+  B58 wif_decode sha256 s nv = Err e -> e = ValueError \/ e = LibError Base58ChecksumError.
 Proof.
   intros sha256 s v e [H1 H2].
-  exact (Lemmas.WifCodec.wif_decode_errors _ _ _ sha256 ConstsOk.b58_alph_btc_nodup ConstsOk.b58_alph_btc_len
+  exact (Lemmas.WifCodec.wif_decode_errors_any _ _ _ sha256 ConstsOk.b58_alph_btc_nodup ConstsOk.b58_alph_btc_len
            ConstsOk.b58_radix_ge2 H1 H2 ConstsOk.b58_cklen_le s v e).
 Qed.
 Print Assumptions wif_decode_errors.
